@@ -97,7 +97,21 @@ def long_token(rnd):
     """Valid-looking programs around one token of unusual length: integer literals of thousands of
     digits in every base, \\u{...} escapes with many hex digits, long names, strings and comments."""
     n = rnd.choice((1, 5, 19, 20, 40, 300, 4299, 4300, 4301, 5000, 9000))
-    k = rnd.randrange(12)
+    k = rnd.randrange(16)
+    if k >= 12:
+        # wide rather than long: many siblings at one nesting level
+        m = rnd.choice((1, 40, 300, 700))
+        if k == 12:
+            return 'empty @is_you(int q) {\n' + ''.join(f'write(q + {i % 50});\n' for i in range(m)) + '}\n'
+        if k == 13:
+            return ''.join(f'int f{i}(int a) {{ return a + {i % 9}; }}\n' for i in range(m)) + \
+                'empty @is_you(int q) { ' + ''.join(f'write(f{i}(q));' for i in range(0, m, 7)) + ' }\n'
+        if k == 14:
+            ps = ', '.join(f'int a{i}' for i in range(m))
+            return f'int f({ps}) {{ return a0 + a{m - 1}; }}\nempty @is_you() {{ write(f(' + ', '.join(str(i % 10) for i in range(m)) + ')); }\n'
+        el = rnd.choice(('int', 'byte', 'bool'))
+        items = ', '.join({'int': str(i * 7 % 1000), 'byte': str(i % 256), 'bool': ('true', 'false')[i % 3 == 0]}[el] for i in range(m * 6))
+        return f'const {el}[] T = [{items}];\nempty @is_you(int q) {{ {el}[] t = [{items}]; write(T[q % T.length]); write(t.length); }}\n'
     d = lambda alphabet: ''.join(rnd.choice(alphabet) for _ in range(n))   # noqa: E731
     if k == 0:
         tok = rnd.choice('123456789') + d('0123456789')
